@@ -762,6 +762,8 @@ fn pair_shapes(f: &str, g: &str, r: &mut Rng, all: bool) -> Vec<String> {
 pub struct PoolFocus {
     pub evs: Vec<Ev>,
     pub tokens: Vec<String>,
+    pub new_words: Vec<String>,
+    pub new_examples: Vec<String>,
 }
 
 pub fn build_pool(seed: u64, repo: &str, sz: &PoolSizes, focus: Option<&PoolFocus>) -> Pool {
@@ -1057,6 +1059,79 @@ pub fn build_pool(seed: u64, repo: &str, sz: &PoolSizes, focus: Option<&PoolFocu
                 for f in &fnames {
                     for t in pair_shapes(f, f, &mut r, true) {
                         add_expr(&mut pool, &mut r, e, t, "change_focus", 4);
+                    }
+                }
+            }
+        }
+    }
+    // words that only the added lines of the change quote: candidates for syntax the change introduces. The role of a
+    // word is not known, so each is tried in every role (function, prefix, postfix, infix, constant), around and
+    // inside every unary function of the evaluator (an inner call that fails leaves the new construct by its error
+    // path). What the library rejects stays in the pool as one more error-producing input.
+    if let Some(fc) = focus {
+        let evs: Vec<Ev> = if fc.evs.is_empty() { ALL_EV.to_vec() } else { fc.evs.clone() };
+        for e in evs.iter().copied() {
+            let v = vocab(Some(e));
+            let unary: Vec<&str> = v.unary.iter().copied().collect();
+            for ex in fc.new_examples.iter() {
+                add_expr(&mut pool, &mut r, e, ex.clone(), "new_words", 4);
+            }
+            for w in fc.new_words.iter() {
+                let mut shapes: Vec<String> = Vec::new();
+                let plain = w.chars().all(|c| c.is_alphanumeric() || c == '_');
+                if let Some(name) = w.strip_suffix('(') {
+                    for a in ["@", "@+1", "1", "0-@", "@,2", "@,@,3"] {
+                        shapes.push(format!("{}({})", name, a));
+                    }
+                    shapes.push(format!("{}({}(@))", name, name));
+                    shapes.push(format!("{}(@)+{}(@)", name, name));
+                    shapes.push(format!("{}(", name));
+                    for f in unary.iter() {
+                        shapes.push(format!("{}({}(@))", name, f));
+                        shapes.push(format!("{}(1+{}(@))", name, f));
+                        shapes.push(format!("{}({}(@))", f, w.trim_end_matches('(')));
+                    }
+                } else {
+                    // prefix
+                    for a in ["@", " @", "(@)", "@+1", "1", "(@+1)*2"] {
+                        shapes.push(format!("{}{}", w, a));
+                    }
+                    shapes.push(format!("1+{}@", w));
+                    shapes.push(format!("({}@)", w));
+                    shapes.push(format!("{}{}@", w, w));
+                    for f in unary.iter() {
+                        shapes.push(format!("{}{}(@)", w, f));
+                        shapes.push(format!("{} {}(@)", w, f));
+                        shapes.push(format!("{}(1+{}(@))", w, f));
+                    }
+                    // postfix, infix, constant
+                    for a in ["@", "(@)", "2", "(@+1)"] {
+                        shapes.push(format!("{}{}", a, w));
+                        shapes.push(format!("{} {}", a, w));
+                    }
+                    for f in unary.iter().take(12) {
+                        shapes.push(format!("{}(@){}", f, w));
+                    }
+                    for (a, b) in [("@", "2"), ("2", "@"), ("(@)", "(@)"), ("@", "@")] {
+                        shapes.push(format!("{}{}{}", a, w, b));
+                        shapes.push(format!("{} {} {}", a, w, b));
+                    }
+                    shapes.push(w.clone());
+                    shapes.push(format!("{}+@", w));
+                    shapes.push(format!("@*{}", w));
+                    if plain {
+                        // a plain word may just as well be a function name
+                        for a in ["@", "@+1", "1", "@,2"] {
+                            shapes.push(format!("{}({})", w, a));
+                        }
+                        for f in unary.iter() {
+                            shapes.push(format!("{}({}(@))", w, f));
+                        }
+                    }
+                }
+                for sh in shapes {
+                    if sh.chars().count() <= 200 {
+                        add_expr(&mut pool, &mut r, e, sh, "new_words", 4);
                     }
                 }
             }
